@@ -396,8 +396,11 @@ func (ts *TermStore) Eq(a, b *Term) *Term {
 			return ts.Bool(a.u == b.u)
 		}
 	}
-	if a.op == OInt2Bv && b.isConst() {
-		return ts.Eq(a.args[0], ts.IntC(b.sval()))
+	if a.sort == SBV64 && (a.op == OInt2Bv || b.op == OInt2Bv) {
+		ia, ib := ts.intView(a), ts.intView(b)
+		if ia != nil && ib != nil {
+			return ts.Eq(ia, ib)
+		}
 	}
 	if a.op == OToReal && b.isConst() && b.sort == SReal {
 		a, b = b, a
@@ -412,9 +415,7 @@ func (ts *TermStore) Eq(a, b *Term) *Term {
 		}
 		return ts.Eq(n, ts.intern(&Term{op: OConst, sort: SInt, r: new(big.Rat).Set(a.r)}))
 	}
-	if b.op == OInt2Bv && a.isConst() {
-		return ts.Eq(b.args[0], ts.IntC(a.sval()))
-	}
+
 	if a.sort == SBool {
 		if a.isConst() {
 			a, b = b, a
@@ -514,6 +515,31 @@ func (ts *TermStore) bvbin(op Op, a, b *Term) *Term {
 		}
 		return ts.BV(w, r)
 	}
+	// int2bv is a ring homomorphism Z -> Z/2^w: keep +,-,* of Int-valued conversions in integer arithmetic
+	if (op == OBvAdd || op == OBvSub || op == OBvMul) && (a.op == OInt2Bv || b.op == OInt2Bv) {
+		toInt := func(x *Term) *Term {
+			if x.op == OInt2Bv {
+				return x.args[0]
+			}
+			if x.isConst() {
+				return ts.IntC(x.sval())
+			}
+			return nil
+		}
+		ia, ib := toInt(a), toInt(b)
+		if ia != nil && ib != nil {
+			var r *Term
+			switch op {
+			case OBvAdd:
+				r = ts.ibin(OIAdd, ia, ib)
+			case OBvSub:
+				r = ts.ibin(OISub, ia, ib)
+			default:
+				r = ts.ibin(OIMul, ia, ib)
+			}
+			return ts.Int2Bv(r, w)
+		}
+	}
 	// division / remainder by a constant power of two: shifts and masks (much cheaper to bit-blast)
 	if b.isConst() && b.u != 0 && b.u&(b.u-1) == 0 && b.u != 1 && !(w < 64 && b.u == 1<<uint(w-1)) && !(w == 64 && b.u == 1<<63) {
 		k := uint64(bits.TrailingZeros64(b.u))
@@ -595,30 +621,24 @@ func (ts *TermStore) bvcmp(op Op, a, b *Term) *Term {
 	}
 	// comparisons of an Int-valued conversion (int2bv n, n assumed in the int64 range) with a constant
 	// stay in integer arithmetic
-	if a.op == OInt2Bv && b.isConst() && a.sort == SBV64 {
-		n := a.args[0]
-		switch op {
-		case OBvSlt:
-			return ts.icmp(OILt, n, ts.IntC(b.sval()))
-		case OBvSle:
-			return ts.icmp(OILe, n, ts.IntC(b.sval()))
-		case OBvUlt:
-			if b.sval() >= 0 {
-				return ts.And(ts.icmp(OILe, ts.IntC(0), n), ts.icmp(OILt, n, ts.IntC(b.sval())))
+	if a.sort == SBV64 && (a.op == OInt2Bv || b.op == OInt2Bv) {
+		ia, ib := ts.intView(a), ts.intView(b)
+		if ia != nil && ib != nil {
+			// Int-valued machine integers (results of float->int conversions in the real reading) are
+			// assumed to stay inside the int64 range: the range fact is attached to the Int term as an axiom
+			switch op {
+			case OBvSlt:
+				return ts.icmp(OILt, ia, ib)
+			case OBvSle:
+				return ts.icmp(OILe, ia, ib)
+			case OBvUlt, OBvUle:
+				if b.isConst() && b.sval() >= 0 {
+					if op == OBvUlt {
+						return ts.And(ts.icmp(OILe, ts.IntC(0), ia), ts.icmp(OILt, ia, ib))
+					}
+					return ts.And(ts.icmp(OILe, ts.IntC(0), ia), ts.icmp(OILe, ia, ib))
+				}
 			}
-		case OBvUle:
-			if b.sval() >= 0 {
-				return ts.And(ts.icmp(OILe, ts.IntC(0), n), ts.icmp(OILe, n, ts.IntC(b.sval())))
-			}
-		}
-	}
-	if b.op == OInt2Bv && a.isConst() && b.sort == SBV64 {
-		n := b.args[0]
-		switch op {
-		case OBvSlt:
-			return ts.icmp(OILt, ts.IntC(a.sval()), n)
-		case OBvSle:
-			return ts.icmp(OILe, ts.IntC(a.sval()), n)
 		}
 	}
 	return ts.intern(&Term{op: op, sort: SBool, args: []*Term{a, b}})
@@ -844,6 +864,12 @@ func (ts *TermStore) Bv2Int(a *Term, signed bool) *Term {
 			return ts.IntC(a.sval())
 		}
 		return ts.intern(&Term{op: OConst, sort: SInt, r: new(big.Rat).SetInt(new(big.Int).SetUint64(a.u))})
+	}
+	if a.op == OInt2Bv && signed && a.sort == SBV64 {
+		// int -> (Int-valued) bit-vector -> int: the Int itself, assumed inside the int64 range
+		n := a.args[0]
+		ts.Define(n, ts.inInt64(n))
+		return n
 	}
 	op := OBv2Int
 	if signed {
@@ -1079,4 +1105,43 @@ func (ts *TermStore) Axioms(t *Term) []*Term {
 	}
 	ts.reach[t.id] = out
 	return out
+}
+
+// Int2Bv converts an Int term to a bit-vector (mod 2^w).
+func (ts *TermStore) Int2Bv(n *Term, w int) *Term {
+	if n.isConst() {
+		z := new(big.Int).Set(n.r.Num())
+		m := new(big.Int).Lsh(big.NewInt(1), uint(w))
+		z.Mod(z, m)
+		return ts.BV(w, z.Uint64())
+	}
+	if (n.op == OBv2Int || n.op == OBv2IntS) && n.args[0].sort.width() == w {
+		return n.args[0]
+	}
+	return ts.intern(&Term{op: OInt2Bv, sort: bvSort(w), args: []*Term{n}, aux: w})
+}
+
+// inInt64: -2^63 <= n < 2^63
+func (ts *TermStore) inInt64(n *Term) *Term {
+	if n.isConst() {
+		return ts.Bool(n.r.Num().IsInt64())
+	}
+	lim := new(big.Int).Lsh(big.NewInt(1), 63)
+	lo := ts.intern(&Term{op: OConst, sort: SInt, r: new(big.Rat).SetInt(new(big.Int).Neg(lim))})
+	hi := ts.intern(&Term{op: OConst, sort: SInt, r: new(big.Rat).SetInt(lim)})
+	return ts.And(ts.icmp(OILe, lo, n), ts.icmp(OILt, n, hi))
+}
+
+// intView returns the Int term denoted by a 64-bit value that is an int2bv conversion or a
+// constant (nil otherwise) and records the assumption that it lies in the int64 range.
+func (ts *TermStore) intView(x *Term) *Term {
+	if x.op == OInt2Bv {
+		n := x.args[0]
+		ts.Define(n, ts.inInt64(n))
+		return n
+	}
+	if x.isConst() {
+		return ts.IntC(x.sval())
+	}
+	return nil
 }
